@@ -682,3 +682,205 @@ def group_autoids_unique(n_before: int, explicit) -> bool:
             if ids[a] == ids[b]:
                 return False
     return True
+
+
+# ---------------------------------------------------------------------------------------
+# C08 / C04 / C16: scripted low-level IO objects (documented pipe / socket contracts)
+# ---------------------------------------------------------------------------------------
+
+class ChunkSource:
+    """Low-level byte source over `data` cut at `cut` (None: no cut).
+
+    take(n): returns between 1 and n of the next bytes - how many is decided by the next entry
+    of `chunks` (True: a single byte, False: everything asked for; an int k: min(k, n) bytes);
+    once `chunks` is used up: everything asked for.  At the cut / end of data: b"" (EOF).
+    Never slices by a symbolic number: counts up to it (forks at most len(data) times).
+    """
+
+    def __init__(self, data: bytes, chunks=(), cut=None):
+        self.data, self.p, self.cut = data, 0, cut
+        self.chunks = list(chunks)
+        self.calls = 0
+
+    def take(self, n):
+        self.calls += 1
+        limit = len(self.data)
+        avail = 0
+        k = self.p
+        while k < limit and (self.cut is None or k < self.cut):
+            avail += 1
+            k += 1
+        want = avail
+        if n is not None and not (n < 0):
+            want = 0
+            while want < avail and want < n:
+                want += 1
+        if self.chunks and want > 1:
+            c = self.chunks.pop(0)
+            if c is True:
+                want = 1
+            elif c is not False:
+                kk = 1
+                while kk < want and kk < c:
+                    kk += 1
+                want = kk
+        r = self.data[self.p : self.p + want]
+        self.p += want
+        return r
+
+
+class PipeFile:
+    """file object of a pipe: read(n) -> 1..n bytes or b'' at EOF; write+flush append."""
+
+    def __init__(self, source=None):
+        self.source = source
+        self.written = []
+        self.flushes = 0
+        self.closed = False
+
+    def read(self, n=-1):
+        return self.source.take(n)
+
+    def write(self, b):
+        if self.closed:
+            raise ValueError("I/O operation on closed file")
+        self.written.append(b)
+        return len(b)
+
+    def flush(self):
+        self.flushes += 1
+
+    def close(self):
+        self.closed = True
+
+    def getvalue(self):
+        return b"".join(self.written)
+
+
+class FakeSocket:
+    """socket object: recv(n) -> 1..n bytes or b'' at EOF; sendall appends everything."""
+
+    def __init__(self, source=None):
+        self.source = source
+        self.sent = []
+        self.shut = []
+
+    def setsockopt(self, *a):
+        pass
+
+    def recv(self, n):
+        return self.source.take(n)
+
+    def sendall(self, b):
+        self.sent.append(b)
+
+    def shutdown(self, how):
+        self.shut.append(how)
+
+    def getvalue(self):
+        return b"".join(self.sent)
+
+
+def make_reader(transport: str, source):
+    """The real IO adapter class of each transport over a scripted low-level object."""
+    em = FakeExecModel()
+    if transport == "popen":
+        return gb.Popen2IO(PipeFile(), PipeFile(source), em)
+    if transport == "socket":
+        from execnet.gateway_socket import SocketIO
+
+        return SocketIO(FakeSocket(source), em)
+    raise ValueError(transport)
+
+
+def make_writer(transport: str):
+    em = FakeExecModel()
+    if transport == "popen":
+        out = PipeFile()
+        return gb.Popen2IO(out, PipeFile(ChunkSource(b"")), em), out
+    if transport == "socket":
+        from execnet.gateway_socket import SocketIO
+
+        s = FakeSocket(ChunkSource(b""))
+        return SocketIO(s, em), s
+    raise ValueError(transport)
+
+
+def ref_frame(code, cid, payload) -> bytes:
+    """wire format from the description: 1 signed byte type, 4 bytes channel, 4 bytes length, payload."""
+    return bytes([code % 256]) + ref_int4(cid) + ref_int4(len(payload)) + payload
+
+
+def frames_roundtrip(transport_w: str, transport_r: str, msgs, chunks) -> bool:
+    """msgs: list of (code, channelid, payload).  Written through the real write path, read back
+    through the real read path under the given chunking; decoded messages equal the sent ones."""
+    io_w, sink = make_writer(transport_w)
+    for code, cid, payload in msgs:
+        gb.Message(code, cid, payload).to_io(io_w)
+    wire = sink.getvalue()
+    want = b""
+    for code, cid, payload in msgs:
+        want = want + ref_frame(code, cid, payload)
+    if wire != want:
+        return False
+    if transport_w == "popen" and sink.flushes != len(msgs):
+        return False
+    io_r = make_reader(transport_r, ChunkSource(wire, chunks))
+    for code, cid, payload in msgs:
+        m = gb.Message.from_io(io_r)
+        if m.msgcode != code or m.channelid != cid or m.data != payload:
+            return False
+        if type(m.data) is not bytes and not REPLAY and False:
+            return False
+    # nothing more is decoded (that the end shows up as EOFError is C04's subject)
+    try:
+        gb.Message.from_io(io_r)
+    except Exception:
+        return True
+    return False
+
+
+def frames_via_channel_items(msgs, splits) -> bool:
+    """Proxied transport, read side: the byte stream arrives as channel items cut at arbitrary
+    points (`splits`: sorted offsets); ProxyIO.read == ChannelFileRead.read over those items."""
+    wire = b""
+    for code, cid, payload in msgs:
+        wire = wire + ref_frame(code, cid, payload)
+    items = []
+    prev = 0
+    for s in splits:
+        if s < prev or s > len(wire):
+            return True
+        items.append(wire[prev:s])
+        prev = s
+    items.append(wire[prev:])
+    ch = ScriptedChannel(items)
+    from execnet.gateway_io import ProxyIO
+
+    pio = ProxyIO.__new__(ProxyIO)
+    pio.iochan = ch
+    pio.iochan_file = gb.Channel.makefile(ch, "r")
+    for code, cid, payload in msgs:
+        m = gb.Message.from_io(pio)
+        if m.msgcode != code or m.channelid != cid or m.data != payload:
+            return False
+    try:
+        gb.Message.from_io(pio)
+    except Exception:
+        return True
+    return False
+
+
+def proxy_write_is_one_item(code, cid, payload) -> bool:
+    """Proxied transport, write side: one message = one outer frame (one Channel.send)."""
+    from execnet.gateway_io import ProxyIO
+
+    gw = RecordingGateway()
+    ch = gw._channelfactory.new()
+    pio = ProxyIO.__new__(ProxyIO)
+    pio.iochan = ch
+    gb.Message(code, cid, payload).to_io(pio)
+    if len(gw.sent) != 1:
+        return False
+    c, i, data = gw.sent[0]
+    return c == gb.Message.CHANNEL_DATA and i == ch.id and ch_loads(gb.loads_internal, data) == ref_frame(code, cid, payload)
